@@ -4,8 +4,9 @@
    cache, one action per stretch between gate points): NoStale, OneFlight, Answered.
 2. With GenCheck = FALSE (store without comparing generations) TLC must violate
    NoStale (non-vacuity).
-3. TLC exports gate-point interleavings (3 threads exhaustive: 3312; 4 threads / 2 keys
-   simulated); the harness forces them on the real pingStatusCache (fake clock, loader
+3. TLC exports gate-point interleavings (3 threads exhaustive: 4901 up to renaming, with
+   reset split at its two gate points; 4 threads / 3 keys -- two of them the same backend
+   asked with different client protocols -- simulated, mutex ignored); the harness forces them on the real pingStatusCache (fake clock, loader
    blocked on a gate, the singleflight goroutine adopted as a schedulable thread).
 4. Free-running stress on the cache, and end-to-end histories through a real Lite
    proxy (status requests over TCP, backends = harness listeners, reloads through
@@ -27,7 +28,7 @@ META = {
             "after it; one fetch in flight per key; TTL freshness; cache hits; fallback only when every backend "
             "failed).",
     "design_ref": "DESIGN.md section 4, C32",
-    "level_note": "A status counts as obtained when its backend fetch completes. Overlapping calls are judged by "
+    "level_note": "Cache keys a and b of the model are one backend with two client protocols. A status counts as obtained when its backend fetch completes. Overlapping calls are judged by "
                   "the weakest reading (a rule fires only if violated for every placement of the reset/tick inside "
                   "its begin..end interval). TTL is exercised on the cache object with a fake clock in steps larger "
                   "than the TTL; end to end the TTL is one hour and only hits/resets are exercised. Cached failures "
@@ -35,7 +36,27 @@ META = {
     "technique": "TLA+ spec + TLC schedule enumeration, forced replay on real code, TLC trace validation",
 }
 
-GATES = ["pc.miss", "pc.flight.enter", "pc.loader", "pc.flight.loaded"]
+GATES = ["pc.miss", "pc.flight.enter", "pc.loader", "pc.flight.loaded", "pc.reset.enter", "pc.reset.mid"]
+
+
+def store_in_reset_window(x):
+    """a flight has fetched its status before a reset thread starts, stores it (third step) between the
+    first and the last step of that reset, and another load thread starts after the reset
+    (sampling aid only, no verdict role)"""
+    prog, sched = x["prog"], x["sched"]
+    pos = {}
+    for i, t in enumerate(sched):
+        pos.setdefault(t, []).append(i)
+    for r, o in prog.items():
+        if o["op"] != "reset" or len(pos.get(r, [])) < 3:
+            continue
+        a, b = pos[r][0], pos[r][2]
+        for t, o2 in prog.items():
+            f = pos.get(t + "f", [])
+            if o2["op"] == "load" and len(f) >= 3 and f[1] < a < f[2] < b:
+                if any(o3["op"] == "load" and u != t and pos.get(u) and pos[u][0] > b for u, o3 in prog.items()):
+                    return True
+    return False
 
 
 def run(ctx):
@@ -51,12 +72,20 @@ def run(ctx):
     n3 = len(s3)
     rnd = random.Random(ctx.seed)
     rnd.shuffle(s3)
-    s3 = s3[:ctx.pick(160, 3312)]
+    if ctx.quick:
+        # quick forces a sample: schedules in which a fetched status is stored while a reset sits between
+        # its gate points, and another request starts after that reset, come first
+        win = [x for x in s3 if store_in_reset_window(x)]
+        oth = [x for x in s3 if not store_in_reset_window(x)]
+        nwin = len(win)
+        s3 = (win * 3)[:30] + oth[:130]   # the few window schedules are forced three times each
+    else:
+        nwin = sum(1 for x in s3 if store_in_reset_window(x))
     s4 = ctx.tlc("PingCache", "PingCache_sched4.cfg", workers=1, count=False,
-                 simulate=ctx.pick(100, 2500), depth=30).printed_json("SCHED")
+                 simulate=ctx.pick(110, 2500), depth=34).printed_json("SCHED")
     scheds = s3 + s4
-    ctx.log("schedules: %d of %d three-thread (exhaustive export) + %d four-thread simulated"
-            % (len(s3), n3, len(s4)))
+    ctx.log("schedules: %d of %d three-thread (exhaustive export, %d with a store inside a reset) + %d "
+            "four-thread / three-key simulated" % (len(s3), n3, nwin, len(s4)))
     with open(ctx.path("sched.json"), "w") as fh:
         json.dump(scheds, fh)
 
@@ -78,7 +107,10 @@ def run(ctx):
         if ev == "hung":
             key = "hung-call"
         elif ev == "end":
-            key = "answer-rejected"
+            # diagnostic only: name the rule by looking the fetch and the request up in the run
+            fk = [r["key"] for r in rj["run"] if r.get("ev") == "fbegin" and r.get("f") == bad.get("v")]
+            rk = [r["key"] for r in rj["run"] if r.get("ev") == "start" and r.get("r") == bad.get("r")]
+            key = "answer-for-other-key" if fk and rk and fk[0] != rk[0] else "answer-rejected"
         elif ev == "fbegin":
             key = "second-fetch-in-flight"
         elif ev == "resolve":
